@@ -52,12 +52,14 @@ pub fn sign_traced(n: usize, keyseed: &[u8], msg: &[u8], rngseed: Option<u64>, t
     let r = match &*k {
         AnySk::S512(sk, pk) => {
             let sig = falcon512::sign(msg, sk);
-            let ok = falcon512::verify(msg, &sig, pk);
+            // the copies a caller may hand on (Clone) must behave like the originals
+            let ok = falcon512::verify(msg, &sig, pk) && falcon512::verify(msg, &sig.clone(), &pk.clone()) && sig.clone() == sig && pk.clone() == *pk;
             (sig.to_bytes(), pk.to_bytes(), ok, sk.verif_b0())
         }
         AnySk::S1024(sk, pk) => {
             let sig = falcon1024::sign(msg, sk);
-            let ok = falcon1024::verify(msg, &sig, pk);
+            // the copies a caller may hand on (Clone) must behave like the originals
+            let ok = falcon1024::verify(msg, &sig, pk) && falcon1024::verify(msg, &sig.clone(), &pk.clone()) && sig.clone() == sig && pk.clone() == *pk;
             (sig.to_bytes(), pk.to_bytes(), ok, sk.verif_b0())
         }
     };
@@ -196,11 +198,11 @@ pub fn op_key_after_key(n: usize, seeds: &str) -> String {
         let msg = [i as u8; 5];
         let ok = if n == 512 {
             let (sk, pk) = falcon512::keygen(seed);
-            let sig = falcon512::sign(&msg, &sk);
+            let sig = falcon512::sign(&msg, &sk.clone());
             falcon512::verify(&msg, &sig, &pk)
         } else {
             let (sk, pk) = falcon1024::keygen(seed);
-            let sig = falcon1024::sign(&msg, &sk);
+            let sig = falcon1024::sign(&msg, &sk.clone());
             falcon1024::verify(&msg, &sig, &pk)
         };
         res.push(ok.to_string());
